@@ -97,7 +97,11 @@ func randInt(f, t int64) (string, error) {
 		t = defaultMaxRandValue
 	}
 	if t == f {
-		f = t + defaultMaxRandValue
+		// the only number between two equal bounds
+		return strconv.FormatInt(f, 10), nil
+	}
+	if t-f <= 0 {
+		return "", fmt.Errorf("randInt: range from %d to %d does not fit int64", f, t)
 	}
 	n := rand.Int63n(t - f)
 	n += f
